@@ -803,7 +803,7 @@ mod proofs {
     // Pre-state: a stream whose body is being received (open or half-closed local), content-length satisfied or absent.
     // Input: a trailers HEADERS frame (END_STREAM set, empty regular field section) that carries `:status` (response
     // side) or `:method` (request side), or no pseudo-header at all (the well-formed twin).
-    // @harness id=recv_recv_trailers_pseudo props=C13 kind=complete tier=attempt timeout=600 fn=Recv::recv_trailers
+    // @harness id=recv_recv_trailers_pseudo props=C13 kind=complete tier=quick timeout=600 fn=Recv::recv_trailers
     #[kani::proof]
     #[kani::unwind(4)]
     fn recv_recv_trailers_pseudo() {
